@@ -45,8 +45,16 @@ impl<R: Read> ZipStreamReader<R> {
             visitor.visit_file(&mut file)?;
         }
 
-        while let Some(metadata) = self.parse_central_directory()? {
-            visitor.visit_additional_metadata(&metadata)?;
+        // `read_zipfile_from_stream` stopped because it consumed the signature of the
+        // first central directory header, so that header is parsed without its signature.
+        let mut metadata = Some(ZipStreamFileMetadata(central_header_to_zip_file_inner(
+            &mut self.0,
+            0,
+            0,
+        )?));
+        while let Some(m) = metadata {
+            visitor.visit_additional_metadata(&m)?;
+            metadata = self.parse_central_directory()?;
         }
 
         Ok(())
